@@ -1028,7 +1028,43 @@ def make_phi(cond, a, b):
             pass
         if isinstance(a, Num) and isinstance(b, Num) and ep.equal(a.rf, b.rf)[0]:
             return a
+        if isinstance(a, Num) and isinstance(b, Num):
+            z = _zero_test_symbol(cond)
+            if z is not None:
+                # phi(s != 0 ? A : B): on the B side s is 0; if A at s = 0 is B at s = 0 the two sides are one expression
+                # (skipping a term whose coefficient is zero: v + c*t for c != 0, v otherwise, is v + c*t)
+                name, nonzero_first = z
+                try:
+                    a0 = ep.substitute(a.rf, {name: ep.const(0)})
+                    b0 = ep.substitute(b.rf, {name: ep.const(0)})
+                    if ep.equal(a0, b0)[0]:
+                        return a if nonzero_first else b
+                except ep.Unsupported:
+                    pass
     return Phi(cond, a, b)
+
+
+def _zero_test_symbol(cond):
+    """(name, the first arm is the non-zero case) when cond tests a plain symbol against 0: s != 0, s == 0, truthiness of s"""
+    if not isinstance(cond, Cond):
+        return None
+    if cond.kind == "truthy" and isinstance(cond.args[0], Num):
+        x, nz = cond.args[0], True
+    elif cond.kind == "cmp" and cond.args[0] in ("!=", "==") and isinstance(cond.args[1], Num) and isinstance(cond.args[2], Num):
+        p, q = cond.args[1], cond.args[2]
+        if q.rf.is_zero():
+            x = p
+        elif p.rf.is_zero():
+            x = q
+        else:
+            return None
+        nz = cond.args[0] == "!="
+    else:
+        return None
+    atoms = list(x.rf.atoms())
+    if len(atoms) == 1 and isinstance(atoms[0], ep.Sym) and ep.equal(x.rf, ep.sym(atoms[0].name))[0]:
+        return atoms[0].name, nz
+    return None
 
 
 def _as_get_with_default(cond, a, b):
